@@ -7,6 +7,11 @@ A case is a plain JSON value:
   malformed : None | 'nan' | 'len'
   portfolio : None | {position, market:{...}, load:..., storage:..., prices:{key:[...]}}   companions for the oracles
   inert     : [[position, {start,end,capa,price}], ...]          orders without a step in the horizon, to be inserted
+  frame     : bool                                               orders handed over as a pandas DataFrame
+  form      : None | {capa, price, dates}                        how each column reaches the constructor (see NUM_FORMS_*);
+                                                                 the capa / price lists of `ob` keep the exact values AND
+                                                                 whether an entry is a whole number given as int or a float
+  numkind   : [capa kind, price kind]                            'float' | 'int' | 'whole_float' | 'mixed' (generator's record)
 """
 import copy
 import math
@@ -31,6 +36,10 @@ GRIDS = [
     ('15min', 'h', 900), ('h', 'd', 3600), ('h', 'min', 3600), ('d', 'd', 86400), ('d', 'h', 86400),
     ('6h', 'd', 21600), ('MS', 'd', 30 * 86400), ('MS', 'h', 30 * 86400),
 ]
+# grids on which the (discounted) covered duration of an order is not a whole number of main time units although the
+# numbers of the orders are: preferred when capacities and prices are integer-typed
+GRIDS_FRAC = [('30min', 'h', 1800), ('15min', 'h', 900), ('15min', 'h', 900), ('h', 'd', 3600), ('6h', 'd', 21600),
+              ('15min', 'd', 900), ('30min', 'min', 1800), ('h', 'min', 3600), ('d', 'h', 86400)]
 ZONES = ['CET', 'Europe/Berlin', 'US/Eastern', 'UTC', 'Asia/Kolkata']
 
 
@@ -42,8 +51,8 @@ def iso(ts):
     return pd.Timestamp(ts).strftime('%Y-%m-%dT%H:%M:%S')
 
 
-def gen_grid(rnd, tmax=12):
-    freq, unit, step = rnd.choice(GRIDS)
+def gen_grid(rnd, tmax=12, grids=None):
+    freq, unit, step = rnd.choice(grids or GRIDS)
     T = rnd.randint(1, tmax) if rnd.random() < 0.9 else 1
     tz = rnd.choice(ZONES) if rnd.random() < 0.4 else None
     if freq == 'MS':
@@ -155,39 +164,85 @@ def gen_window(rnd, pts, step, kind):
     raise ValueError(kind)
 
 
-def gen_order(rnd, g, pts, kinds=KINDS, generic=False, force=None):
+# ---- the numbers of the orders: values (`numkind`, per column) and the form in which a column reaches the constructor
+# numkind: 'float' eighths as floats | 'int' whole numbers as Python ints | 'whole_float' whole numbers as floats |
+#          'mixed' entry by entry one of the three
+NUMKINDS = ['float', 'int', 'whole_float', 'mixed']
+# dict of ...: list / tuple as they are; numpy array of the inferred dtype (all ints -> int64, else float64); list of numpy
+# scalars (np.int64 / np.float64 entry by entry); numpy object array holding the Python numbers; pandas Series (inferred
+# dtype); numpy float64 array
+NUM_FORMS_DICT = ['list', 'list', 'tuple', 'array', 'array', 'np_scalars', 'object', 'series', 'float_array']
+# DataFrame column of the inferred dtype (all ints -> int64, else float64), cast to float64, or of dtype object
+NUM_FORMS_FRAME = ['infer', 'infer', 'infer', 'float64', 'object']
+DATE_FORMS_DICT = ['list', 'list', 'list', 'tuple', 'object']
+
+
+def gen_numkinds(rnd):
+    """value kinds of (capa, price): all floats (the usual documentation form), all whole numbers given as ints (as they
+    come from an exchange feed), or any combination"""
+    r = rnd.random()
+    if r < 0.4:
+        return ['float', 'float']
+    if r < 0.7:
+        return ['int', 'int']
+    return [rnd.choice(NUMKINDS), rnd.choice(NUMKINDS)]
+
+
+def gen_form(rnd, frame):
+    forms = NUM_FORMS_FRAME if frame else NUM_FORMS_DICT
+    return {'capa': rnd.choice(forms), 'price': rnd.choice(forms), 'dates': 'list' if frame else rnd.choice(DATE_FORMS_DICT)}
+
+
+def as_kind(rnd, kind, whole, eighths):
+    """a number of the given kind: `whole` (an int) for the whole-number kinds, `eighths` (a float) otherwise"""
+    if kind == 'mixed':
+        kind = rnd.choice(['float', 'int', 'whole_float'])
+    if kind == 'int':
+        return int(whole)
+    if kind == 'whole_float':
+        return float(whole)
+    return float(eighths)
+
+
+def gen_order(rnd, g, pts, kinds=KINDS, generic=False, force=None, numkinds=('float', 'float')):
     kind = rnd.choice(kinds)
     s, e = gen_window(rnd, pts, g['step_s'], kind)
-    capa = rnd.choice([-1, 1]) * q8(rnd, 0.25, 4)
+    sign = rnd.choice([-1, 1])
+    capa = as_kind(rnd, numkinds[0], sign * rnd.randint(1, 5), sign * q8(rnd, 0.25, 4))
     if rnd.random() < 0.04:
-        capa = 0.0
-    price = q8(rnd, -2, 15)
+        capa = as_kind(rnd, numkinds[0], 0, 0.0)
+    price = as_kind(rnd, numkinds[1], rnd.randint(-2, 15), q8(rnd, -2, 15))
     if generic:
         price = round(price + rnd.uniform(-0.05, 0.05), 5)
     return {'start': render_date(rnd, s, g['tz'], force), 'end': render_date(rnd, e, g['tz'], force), 'capa': capa, 'price': price, 'kind': kind}
 
 
 def gen_case(rnd, with_portfolio=None):
-    g = gen_grid(rnd)
+    numkinds = gen_numkinds(rnd)
+    # whole numbers given as ints: more often than otherwise on a grid whose steps are not whole main time units, and
+    # with discounting (the cost of an order is capa x price x discounted covered duration: not a whole number there)
+    whole = numkinds == ['int', 'int']
+    g = gen_grid(rnd, grids=GRIDS_FRAC if whole and rnd.random() < 0.5 else None)
     pts = all_points(g)
     T = len(pts) - 1
-    wacc = 0.0 if rnd.random() < 0.6 else rnd.choice([0.05, 0.1, 0.5, 0.0725])
+    wacc = 0.0 if rnd.random() < (0.5 if whole else 0.6) else rnd.choice([0.05, 0.1, 0.5, 0.0725])
     if with_portfolio is None:
         with_portfolio = rnd.random() < 0.5
     n = rnd.randint(1, 6)
     if not with_portfolio and rnd.random() < 0.03:
         n = 0
     # generic (non-dyadic) order prices in part of the oracle cases make the optimum unique
-    generic = with_portfolio and rnd.random() < 0.5
+    generic = with_portfolio and numkinds[1] == 'float' and rnd.random() < 0.5
     # orders handed over as a pandas DataFrame (the constructor takes `orders[col].values`); with every date of a
     # column zone-aware in ONE zone the column is datetime64[ns, tz] and `.values` drops the zone (finding F-20b)
     frame = n > 0 and rnd.random() < 0.2
     force = None
     if frame and tz_of(g) is not None and rnd.random() < 0.8:
         force = rnd.choice(['aware', 'aware_utc', 'aware_utc'])
-    orders = [gen_order(rnd, g, pts, generic=generic, force=force) for _ in range(n)]
+    orders = [gen_order(rnd, g, pts, generic=generic, force=force, numkinds=numkinds) for _ in range(n)]
     cols = {k: [o[k] for o in orders] for k in ('start', 'end', 'capa', 'price')}
-    case = {'grid': g, 'malformed': None, 'kinds': [o['kind'] for o in orders], 'portfolio': None, 'inert': [], 'frame': frame}
+    case = {'grid': g, 'malformed': None, 'kinds': [o['kind'] for o in orders], 'portfolio': None, 'inert': [], 'frame': frame,
+            'form': gen_form(rnd, frame), 'numkind': numkinds}
     args = {'orders': cols, 'wacc': wacc}
     if rnd.random() < 0.4:
         args['full_exec'] = True
@@ -214,8 +269,9 @@ def gen_case(rnd, with_portfolio=None):
         ins = []
         for _ in range(k):
             o = gen_order(rnd, g, pts, kinds=OUTSIDE_KINDS, force=force)
-            o['capa'] = rnd.choice([-1, 1]) * q8(rnd, 1, 6)          # attractive if it were (wrongly) live
-            o['price'] = rnd.choice([-20.0, 40.0, q8(rnd, -2, 15)])
+            sign = rnd.choice([-1, 1])                               # attractive if it were (wrongly) live
+            o['capa'] = as_kind(rnd, numkinds[0], sign * rnd.randint(1, 6), sign * q8(rnd, 1, 6))
+            o['price'] = as_kind(rnd, numkinds[1], *rnd.choice([(-20, -20.0), (40, 40.0), (rnd.randint(-2, 15), q8(rnd, -2, 15))]))
             ins.append([rnd.randint(0, n), {kk: o[kk] for kk in ('start', 'end', 'capa', 'price')}])
         case['inert'] = ins
     return case
@@ -260,9 +316,85 @@ def tz_of(g):
 FRAME_DROPS_ZONE = False    # follow the code: `orders[col].values` of a datetime64[ns, tz] column is zone-less UTC wall time
 
 
-def as_frame(cols):
-    """the four columns as a DataFrame (None = NaN)"""
-    return pd.DataFrame({k: list(v) for k, v in cols.items()})
+def shape_num(vals, form):
+    """a capa / price column (Python ints and floats, exactly as the case records them) in the form `form`"""
+    vals = list(vals)
+    if form in (None, 'list'):
+        return vals
+    if form == 'tuple':
+        return tuple(vals)
+    if form == 'array':             # int64 when every entry is an int, float64 otherwise
+        return np.asarray(vals) if vals else np.zeros(0)
+    if form == 'float_array':
+        return np.asarray(vals, dtype=float)
+    if form == 'np_scalars':
+        return [np.int64(v) if isinstance(v, int) else np.float64(v) for v in vals]
+    if form == 'object':
+        a = np.empty(len(vals), dtype=object)
+        a[:] = vals
+        return a
+    if form == 'series':
+        return pd.Series(vals) if vals else pd.Series(vals, dtype=float)
+    if form == 'infer':             # DataFrame column: int64 when every entry is an int, float64 otherwise
+        return pd.Series(vals) if vals else pd.Series(vals, dtype=float)
+    if form == 'float64':
+        return pd.Series(vals, dtype=float)
+    raise ValueError(form)
+
+
+def shape_dates(vals, form):
+    vals = list(vals)
+    if form in (None, 'list'):
+        return vals
+    if form == 'tuple':
+        return tuple(vals)
+    if form == 'object':
+        a = np.empty(len(vals), dtype=object)
+        a[:] = vals
+        return a
+    raise ValueError(form)
+
+
+def as_frame(cols, form=None):
+    """the four columns as a DataFrame (None = NaN); numeric columns of the dtype the case's `form` asks for"""
+    form = form or {}
+    d = {}
+    for k, v in cols.items():
+        f = form.get(k) if k in ('capa', 'price') else None
+        if f == 'object':
+            d[k] = pd.Series(list(v), dtype=object)
+        elif f in ('infer', 'float64') and len({len(x) for x in cols.values()}) == 1:
+            d[k] = shape_num(v, f)
+        else:
+            d[k] = list(v)
+    return pd.DataFrame(d)
+
+
+def shape_orders(case, cols):
+    """the decoded order columns as the object handed to the constructor: dict of lists / tuples / numpy arrays / Series,
+    or a DataFrame with int64 / float64 / object columns"""
+    form = case.get('form') or {}
+    if case.get('frame'):
+        return as_frame(cols, form)
+    out = {}
+    for k, v in cols.items():
+        if k in ('capa', 'price'):
+            out[k] = shape_num(v, form.get(k))
+        elif k in ('start', 'end'):
+            out[k] = shape_dates(v, form.get('dates'))
+        else:
+            out[k] = v
+    return out
+
+
+def code_dtypes(case, spec=None):
+    """numpy dtype kinds ('i', 'f', 'O') of the capa and price columns as the implementation sees them"""
+    o = scen.dec(copy.deepcopy(dec_nan(spec or case['ob'])['args']['orders']))
+    try:
+        sh = shape_orders(case, o)
+        return [np.asarray(sh[k]).dtype.kind for k in ('capa', 'price')]
+    except Exception:
+        return ['?', '?']
 
 
 def frame_zone_dropped(case, spec=None):
@@ -289,10 +421,10 @@ def order_instants(case, spec=None, as_code=True):
 
 
 def build_ob(case, spec, nodes):
-    ob = scen.build_asset(dec_nan(spec), nodes)
-    if case.get('frame'):
-        ob = eao.assets.OrderBook(name=ob.name, nodes=ob.nodes[0], wacc=ob.wacc, orders=as_frame(ob.orders), full_exec=ob.full_exec)
-    return ob
+    spec = dec_nan(spec)
+    args = scen.dec(copy.deepcopy(spec.get('args', {})))
+    args['orders'] = shape_orders(case, args['orders'])
+    return eao.assets.OrderBook(name=spec['name'], nodes=nodes[spec['nodes'][0]], **args)
 
 
 def own_grid(case):
@@ -822,6 +954,21 @@ def run_case(case, drv):
         f.append('frame_zone_dropped')
     if len(set(ir['grid']['dt'])) > 1:
         f.append('unequal_steps')
+    # form of the numbers: what the generator drew and what the implementation sees
+    form = case.get('form') or {}
+    f += ['form:%s=%s' % (k, form[k]) for k in ('capa', 'price', 'dates') if k in form]
+    if case.get('numkind'):
+        f.append('num:%s/%s' % tuple(case['numkind']))
+    dk = code_dtypes(case)
+    f.append('dtype:%s/%s' % tuple(dk))
+    fractional = case['ob']['args'].get('wacc', 0.0) != 0 or any(Fraction(v).denominator != 1 for v in ir['grid']['dt'])
+    if dk == ['i', 'i']:
+        f.append('int_typed')
+        f.append('int_typed+%s' % ('fractional_duration' if fractional else 'whole_duration'))
+        if fractional:
+            f += ['int_typed+freq:%s/%s' % (case['grid']['freq'], case['grid']['unit'])]
+            if case['ob']['args'].get('wacc', 0.0) != 0:
+                f.append('int_typed+wacc')
     if case.get('portfolio') is not None and 'error' not in ir:
         f.append('portfolio')
         if case['portfolio']['storage'] is not None:
